@@ -2,22 +2,42 @@
    input table.  Property theorems only; each closed with [exact] and followed
    by Print Assumptions.
 
-   [fixes] has one boolean per repaired defect (C17-F1..F4, F6, F7): the code as
-   it now is = [all_fixes]; [no_fixes] = the code before the fix: commits.
-   PART 1 states the theorems about the code as it now is, PART 2 keeps the
-   refutations of the same statements for the unrepaired code as the record of
-   the repaired defects.
+   "The code as it is" means the CURRENT /repo, which contains all eight repairs:
+     C17-F1 e8c17b3 reorder_columns no longer extends its own column_order
+     C17-F2 192568b factor_column works without factor_values / factor_names
+     C17-F3 b484e3c merge_consecutive works without match_columns
+     C17-F4 adebd46 split_rows treats copy_columns as optional
+     C17-F5 e888c67 KeyMap lookup series built with an explicit index
+     C17-F6 b5c611b merge_consecutive set_durations skips unused group numbers
+     C17-F7 6cfe711 remap_columns validation rejects shared/repeated column names
+     C17-F8 55a866d no .max() on the scalar anchor extent in set_durations
+   [fixes] has one boolean per repair that touches modelled behaviour (F1-F4, F6,
+   F7); [all_fixes] IS the current code and PART 1 is stated for it.  [no_fixes]
+   is the behaviour BEFORE those commits; PART 2 keeps the refutations for it
+   only as the record of the repaired defects -- the property is NOT false of
+   the implementation any more.  F5 and F8 are pandas dtype / hash-seed effects
+   that the model never contained: they have no switch, no theorem can tell the
+   code before and after those two commits apart, and that they are gone is
+   established by testing only (corpus witnesses + every generated case).
+
+   [Exn Unmodelled] is not a behaviour of the code but the mark of a run that
+   left the modelled fragment (duplicate column names in an intermediate table,
+   text in a summed column, an operation other than the eight).  Theorems that
+   quantify over ALL tables (order independence, valid_always_runs) hold for
+   such runs too, as equations between outcomes; what they mean INSIDE the
+   fragment is stated by C17_valid_list_end_to_end and C17_order_independent_nth.
 
    The input table is a value in this functional model, so "the input table is
-   left unchanged" holds by construction and is not stated as a theorem; the
-   aliasing that matters -- the operation's own attributes, which alias the
-   caller's parameter list -- is the explicit [opstate] returned by [do_op]. *)
+   left unchanged" holds BY CONSTRUCTION (C17_input_unchanged is a reflexivity,
+   kept only to make the clause visible); the aliasing that matters -- the
+   operation's own attributes, which alias the caller's parameter list -- is the
+   explicit [opstate] returned by [do_op]. *)
 From Coq Require Import List NArith ZArith Bool.
 From HV Require Import Base.Res Base.Str Model.RemodelJson Gen.RemodelParams Model.Remodel
   Proofs.RemodelProofs Proofs.RemodelMeaning.
 Import ListNotations.
 
-(* ======================= PART 1: the code as it now is ======================= *)
+(* =========== PART 1: the code as it is (current /repo, model mode [all_fixes]) =========== *)
 
 (* ---- documented meaning of the column/row operations, for ALL tables ---- *)
 
@@ -35,6 +55,25 @@ Theorem C17_remove_rows_keeps_na : forall i vals r,
   get_cell i r = CNa -> row_kept i vals r = true.
 Proof. exact remove_rows_keeps_na. Qed.
 Print Assumptions C17_remove_rows_keeps_na.
+
+(* the same without the model's own helpers ([cell_matches]: same kind and same
+   content): the result is the input with rows deleted (so order and
+   multiplicity of the others are kept), and a row survives iff its cell
+   matches none of the listed values *)
+Theorem C17_remove_rows_declarative : forall cn vals t i,
+  index_of cn (cols t) = Some i ->
+  exists keep : list cell -> bool,
+    do_remove_rows cn vals t = Ok {| cols := cols t; rows := filter keep (rows t) |} /\
+    forall r, keep r = true <-> (forall v, In v vals -> ~ cell_matches (get_cell i r) v).
+Proof. exact remove_rows_declarative. Qed.
+Print Assumptions C17_remove_rows_declarative.
+
+Theorem C17_remove_rows_membership : forall cn vals t i t',
+  index_of cn (cols t) = Some i -> do_remove_rows cn vals t = Ok t' ->
+  cols t' = cols t /\
+  forall r, In r (rows t') <-> (In r (rows t) /\ forall v, In v vals -> ~ cell_matches (get_cell i r) v).
+Proof. exact remove_rows_membership. Qed.
+Print Assumptions C17_remove_rows_membership.
 
 (* remove_columns removes exactly the named columns, keeps the number of rows
    and every cell (n/a included) of every other column; without ignore_missing
@@ -56,6 +95,16 @@ Theorem C17_rename_columns_meaning : forall m ig t t',
   /\ (ig = false -> forall k v, In (k, v) m -> has_col t k = true).
 Proof. exact rename_columns_meaning. Qed.
 Print Assumptions C17_rename_columns_meaning.
+
+(* the same on the mapping as a set of pairs with distinct keys (a JSON object) *)
+Theorem C17_rename_columns_declarative : forall m ig t t',
+  NoDup (map fst m) -> do_rename_columns m ig t = Ok t' ->
+  rows t' = rows t /\ length (cols t') = length (cols t) /\
+  forall j c, nth_error (cols t) j = Some c ->
+    exists c', nth_error (cols t') j = Some c' /\
+               (forall n, In (c, n) m -> c' = n) /\ (~ In c (map fst m) -> c' = c).
+Proof. exact rename_columns_declarative. Qed.
+Print Assumptions C17_rename_columns_declarative.
 
 (* reorder_columns yields the documented order ... *)
 Theorem C17_reorder_columns_order : forall fx order ig keep t st' t',
@@ -360,6 +409,34 @@ Theorem C17_valid_always_runs : forall ops ts,
 Proof. exact (fun ops ts => valid_always_runs all_fixes ops ts eq_refl). Qed.
 Print Assumptions C17_valid_always_runs.
 
+(* INSIDE the modelled fragment, end to end: a list without messages constructs;
+   whatever was processed before, every file gets the result of a fresh
+   dispatcher; and on every table to which the list is applicable step by step
+   that result is a table -- not an exception and not [Unmodelled] *)
+Theorem C17_valid_list_end_to_end : forall ops,
+  validate all_fixes ops = Ok true ->
+  exists sts, parse_operations ops = Ok sts /\
+    (forall ts, remodel all_fixes ops ts
+                = Ok (Ran sts (map (fun t => snd (run_operations all_fixes sts t)) ts))) /\
+    (forall t, applicable_run sts t = true -> exists t', snd (run_operations all_fixes sts t) = Ok t').
+Proof. exact valid_list_end_to_end. Qed.
+Print Assumptions C17_valid_list_end_to_end.
+
+Theorem C17_order_independent_nth : forall sts ts k t,
+  nth_error ts k = Some t ->
+  nth_error (snd (run_tables all_fixes sts ts)) k = Some (snd (run_operations all_fixes sts t)).
+Proof. exact order_independent_nth. Qed.
+Print Assumptions C17_order_independent_nth.
+
+(* where [Unmodelled] comes from in one dispatcher step: the operation itself
+   left the fragment, or its result has duplicate column names *)
+Theorem C17_unmodelled_origin : forall fx st t,
+  snd (run_operations fx [st] t) = Exn Unmodelled ->
+  snd (do_op fx st (prep_data t)) = Exn Unmodelled \/
+  exists t1, snd (do_op fx st (prep_data t)) = Ok t1 /\ wfb (post_proc_data t1) = false.
+Proof. exact run_one_unmodelled. Qed.
+Print Assumptions C17_unmodelled_origin.
+
 (* for each of the eight operations: parameters accepted by the translated
    PARAMS schema never make the translated __init__ raise (the required lists
    cover every parameters['k']) *)
@@ -369,7 +446,7 @@ Print Assumptions C17_init_total.
 
 (* the same for the accesses SplitRowsOp._split_rows makes to a new_events
    entry at do_op time; the guard is discharged for the current tree in
-   Props/C17Now.v (it is false for the unrepaired tree) *)
+   Props/C17Now.v (it is false for a tree before fix commit adebd46) *)
 Theorem C17_split_event_fetch_total :
   event_fetch_safe = true ->
   exists sch, event_schema = Some sch /\
@@ -397,10 +474,26 @@ Print Assumptions C17_valid_runs_list.
    cells, run twice through one dispatcher; and the former crash witnesses *)
 Example C17_nonvacuous :
   forallb (input_data_ok all_fixes) ex_ops = true /\
-  run_tables no_fixes ex_ops [ex_T1; ex_T1]
+  run_tables all_fixes ex_ops [ex_T1; ex_T1]
   = (ex_ops, [Ok {| cols := [s1 99; s1 122]; rows := [[CStr [122%N]; CStr [50%N]]] |};
               Ok {| cols := [s1 99; s1 122]; rows := [[CStr [122%N]; CStr [50%N]]] |}]).
 Proof. exact ex_ops_run. Qed.
+
+(* the current code on the operation C17_opstate_constant is about:
+   reorder_columns/keep_others from its JSON, through validate, the constructor
+   and ONE dispatcher over files with different extra columns: the operation
+   keeps its column_order and all three files are reordered *)
+Example C17_nonvacuous_reorder_keep_others :
+  validate all_fixes ex_reorder_json = Ok true /\
+  parse_operations ex_reorder_json = Ok [ex_reorder] /\
+  remodel all_fixes ex_reorder_json [ex_T1; ex_T2; ex_T1]
+  = Ok (Ran [ex_reorder]
+          [Ok {| cols := [[98%N]; [97%N]; [99%N]];
+                 rows := [[CStr [120%N]; CStr [49%N]; CStr s_na]; [CStr [121%N]; CStr [50%N]; CStr [122%N]]] |};
+           Ok {| cols := [[98%N]; [97%N]; [100%N]]; rows := [[CStr [120%N]; CStr [49%N]; CStr [113%N]]] |};
+           Ok {| cols := [[98%N]; [97%N]; [99%N]];
+                 rows := [[CStr [120%N]; CStr [49%N]; CStr s_na]; [CStr [121%N]; CStr [50%N]; CStr [122%N]]] |}]).
+Proof. exact ex_reorder_now. Qed.
 
 Example C17_nonvacuous_applicable : applicable_run ex_ops ex_T1 = true.
 Proof. exact ex_ops_applicable. Qed.
@@ -411,14 +504,23 @@ Example C17_former_witnesses_applicable :
   applicable ex_merge_gap ex_T3 = true.
 Proof. exact former_witnesses_applicable. Qed.
 
-(* ============ PART 2: record of the repaired defects (code before the fixes) ============ *)
+(* ===== PART 2: RECORD of the repaired defects -- model mode [no_fixes] = the behaviour BEFORE the
+   fix commits named in the header.  None of these statements is about the current /repo. ===== *)
 
-(* C17-F1: reorder_columns/keep_others extended its own column_order *)
+(* C17-F1, behaviour before fix commit e8c17b3: reorder_columns/keep_others extended its own column_order *)
+Example C17_record_reorder_before_e8c17b3 :
+  remodel no_fixes ex_reorder_json [ex_T1; ex_T2]
+  = Ok (Ran [ReorderColumns [[98%N]; [97%N]; [99%N]] false true]
+          [Ok {| cols := [[98%N]; [97%N]; [99%N]];
+                 rows := [[CStr [120%N]; CStr [49%N]; CStr s_na]; [CStr [121%N]; CStr [50%N]; CStr [122%N]]] |};
+           Exn ValueError]).
+Proof. exact ex_reorder_before_e8c17b3. Qed.
+
 Theorem C17_opstate_constant_refuted : exists st t, fst (do_op no_fixes st t) <> st.
 Proof. exact opstate_constant_refuted. Qed.
 Print Assumptions C17_opstate_constant_refuted.
 
-(* what held of the unrepaired code: every other operation was constant *)
+(* what held also before e8c17b3 (any mode): every other operation is constant *)
 Theorem C17_opstate_constant_partial : forall fx st t,
   not_keep_others st = true -> fst (do_op fx st t) = st.
 Proof. exact opstate_constant_partial. Qed.
@@ -431,7 +533,8 @@ Theorem C17_order_independent_refuted :
 Proof. exact order_independent_refuted. Qed.
 Print Assumptions C17_order_independent_refuted.
 
-(* C17-F7: a validated remap_columns list made the constructor raise *)
+(* C17-F7, behaviour before fix commit 6cfe711: a validated remap_columns list made the constructor raise
+   (third conjunct: the current code reports it with a message) *)
 Theorem C17_valid_constructs_refuted :
   validate no_fixes ex_remap_overlap = Ok true /\
   parse_operations ex_remap_overlap = Exn ValueError /\
@@ -439,7 +542,9 @@ Theorem C17_valid_constructs_refuted :
 Proof. exact valid_constructs_refuted. Qed.
 Print Assumptions C17_valid_constructs_refuted.
 
-(* C17-F2, F3, F4, F6: the optional parameters and the group numbering *)
+(* C17-F2 (before 192568b), C17-F3 (before b484e3c), C17-F4 (before adebd46), C17-F6 (before b5c611b):
+   the optional parameters and the group numbering; each witness also satisfies the hypothesis of
+   C17_valid_runs (C17_former_witnesses_applicable), so the current code runs it to completion *)
 Theorem C17_valid_runs_refuted_factor_values :
   input_data_ok no_fixes ex_factor_no_values = true /\ has_col ex_T1 (s1 97) = true /\
   snd (do_op no_fixes ex_factor_no_values ex_T1) = Exn TypeError.
@@ -475,7 +580,7 @@ Theorem C17_valid_runs_refuted_merge_gap :
 Proof. exact valid_runs_refuted_merge_gap. Qed.
 Print Assumptions C17_valid_runs_refuted_merge_gap.
 
-(* what held of the unrepaired code: with every optional parameter present
+(* what held already before 192568b / b484e3c / b5c611b: with every optional parameter present
    (outside split_rows and set_durations) it ran to completion *)
 Theorem C17_valid_runs_partial : forall st t,
   optionals_present st = true -> applicable_core st t = true ->
